@@ -385,6 +385,31 @@ class ModelMixin3:
                                    stages=le.stages + ('chain.from_iterable',)))
                 return [(Ref('list', sym), st)]
             return [(Unknown('chain'), st)]
+        if name.endswith('.read_text') or name == 'file.read' or name.endswith('.read_bytes'):
+            # reading a file: the OS may refuse, and decoding text may fail (a well-formed XML file need not be UTF-8)
+            outs = [(StrV(('file contents',)) if not name.endswith('.read_bytes') else Unknown('bytes'), st)]
+            s2 = st.copy()
+            outs.append((self.exc('OSError', s2, node, 'the file cannot be read'), s2))
+            if not name.endswith('.read_bytes'):
+                s3 = st.copy()
+                outs.append((self.exc('UnicodeDecodeError', s3, node, 'the file is not valid text in the chosen encoding'), s3))
+            return outs
+        if name in ('collections.Counter', 'Counter'):
+            src = args[0] if args else None
+            if src is None:
+                return [(Ref('dict', st.new(DictE((), True, default=Const(0)))), st)]
+            if isinstance(src, TupleV):
+                seq = src.items
+            elif isinstance(src, Ref) and src.kind == 'list' and st.get(src.sym).kind == 'lit':
+                seq = st.get(src.sym).items
+            else:
+                seq = None
+            if seq is not None and all(self._is_concrete(x) for x in seq):
+                counts = {}
+                for x in seq:
+                    counts[x] = counts.get(x, 0) + 1
+                return [(Ref('dict', st.new(DictE(tuple((k, Const(n)) for k, n in counts.items()), True, default=Const(0)))), st)]
+            return [(Ref('dict', st.new(DictE((), False, default=Const(0)))), st)]
         if name.startswith('xmltodict.'):
             return [(Unknown('xmltodict'), st)]
         if name.startswith('sentinel:'):
@@ -560,6 +585,14 @@ class ModelMixin3:
                                     nxt.append((v2 if isinstance(v2, Raise) else NoneV(), s2))
                         outs = nxt
             return outs
+        if name == 'issubclass':
+            cls = args[1] if len(args) > 1 else None
+            cands = cls.items if isinstance(cls, TupleV) else (cls,)
+            if isinstance(a0, ClsV) and not a0.qual.startswith('ext:') and all(isinstance(c, ClsV) and not c.qual.startswith('ext:') for c in cands):
+                mro = [c.qualname for c in self.prog.classes[a0.qual].mro]
+                return [(Const(any(c.qual in mro for c in cands)), st)]
+            s2 = st.copy()
+            return [(Const(True), st), (Const(False), s2)]
         if name == 'isinstance':
             cls = args[1] if len(args) > 1 else None
             r = self.isinstance_(a0, cls, st)
@@ -600,6 +633,15 @@ class ModelMixin3:
         if name == 'iter':
             return [(a0, st)]
         if name == 'next':
+            if isinstance(a0, Ref) and a0.kind == 'list' and st.get(a0.sym).kind == 'lit':
+                le0 = st.get(a0.sym)
+                if le0.items:
+                    return [(le0.items[0], st)]
+                return [(self.exc('StopIteration', st, node), st)] if len(args) < 2 else [(args[1], st)]
+            if isinstance(a0, TupleV):
+                if a0.items:
+                    return [(a0.items[0], st)]
+                return [(self.exc('StopIteration', st, node), st)] if len(args) < 2 else [(args[1], st)]
             s2 = st.copy()
             outs = [(self.exc('StopIteration', s2, node), s2)] if len(args) < 2 else [(args[1], s2)]
             if isinstance(a0, Ref) and a0.kind == 'list':
